@@ -1316,6 +1316,7 @@ func main() {
 	w("/-- the endpoints that are RPCOpen today: what their handlers reach through the methods of *Cluster (transitively):\n")
 	w("    calls on fields of the Cluster, RPC calls made with the serving peer's own credentials, opaque uses -/\n")
 	w("def openReach : List Reach := %s\n\n", leanReach(openReach))
+	w("%s", leanDaemon(repo))
 	w("end CV.C07.Gen\n")
 	fmt.Print(b.String())
 }
